@@ -268,7 +268,7 @@ namespace verif
         bool with_stalls = c.coin(150);
         unsigned n       = unsigned(c.range(6, 14));
         std::vector<Script> scripts(n);
-        std::string cfg = std::string((L / 7) % 2 ? "maxPayload=" : "maxRequestSize=") + std::to_string(L) + " headerTimeout=" + std::to_string(th).substr(0, 3) + " bodyTimeout=" + std::to_string(tb).substr(0, 3) + " workers=" + std::to_string(workers);
+        std::string cfg = std::string((L / 7) % 2 ? "maxPayload=" : "maxRequestSize=") + std::to_string(L) + " headerTimeout=" + std::to_string(th).substr(0, 3) + " bodyTimeout=" + std::to_string(tb).substr(0, 3) + " workers=" + std::to_string(workers) + ((L / 11) % 2 == 1 ? " (handler set before the options)" : "");
         bool nt         = false;
         std::string desc_all;
         for (unsigned i = 0; i < n; ++i)
@@ -464,7 +464,8 @@ namespace verif
 #pragma GCC diagnostic pop
             o.headerTimeout(std::chrono::milliseconds(int(th * 1000)));
             o.bodyTimeout(std::chrono::milliseconds(int(tb * 1000)));
-        });
+        },
+                  /* setHandler() before init(): every other configuration, by the limit's value */ (L / 11) % 2 == 1);
         std::vector<std::thread> th_;
         for (auto& s : scripts)
             th_.emplace_back([&s, &srv, th, tb, sh] { run_script(s, srv.port, th, tb, sh); });
